@@ -108,6 +108,53 @@ Definition spec_report (lg : mlang) (cfg : mconfig) (f : file) : list mrep :=
   flat_map (fun sc => flat_map (fun s => flat_map (spec_lit lg cfg (spec_file_exempt lg f) sc s) (s_lits s)) (sc_sites sc))
            (f_scopes f).
 
+(* the section switches: `enabled: false` switches the linter off; a file matching an `ignore` pattern is skipped.
+   How a pattern matches a path (right-anchored glob segments, or the pattern occurring in the path) is the transcribed
+   matcher of Model/Magic.v: the documentation gives examples only ("tests/**", "**/*_constants.py", "config/*.py"). *)
+Definition spec_lint (lg : mlang) (cfg : mconfig) (f : file) : list mrep :=
+  match c_enabled cfg with
+  | Some false => []
+  | _ => if existsb (fun p => path_match p (f_name f) || contains (chars p) (chars (f_name f))) (c_ignore cfg) then []
+         else spec_report lg cfg f
+  end.
+
+(* line-level ignores (docs/how-to-ignore-violations.md): `thailint: ignore[rules]` suppresses the line's violations of the
+   named rules (the linter name or the full rule id), the bare `thailint: ignore` all of them *)
+Definition spec_suppresses (d : directive) : bool :=
+  match d_rules d with
+  | None => false
+  | Some [] => true
+  | Some rs => existsb (fun r => String.eqb r "magic-numbers" || String.eqb r "magic-numbers.numeric-literal") rs
+  end.
+
+Definition spec_lint_d (lg : mlang) (cfg : mconfig) (f : file) (ds : dirs) : list mrep :=
+  filter (fun r => negb (suppressed_at spec_suppresses ds (fst r))) (spec_lint lg cfg f).
+
+Definition dir_pool : list directive :=
+  [mk_dir "thailint: ignore[magic-numbers]" (Some ["magic-numbers"]);
+   mk_dir "thailint: ignore[magic-numbers] - Industry standard timeout" (Some ["magic-numbers"]);
+   mk_dir "thailint: ignore[nesting]" (Some ["nesting"]);
+   mk_dir "thailint: ignore[nesting,magic-numbers]" (Some ["nesting"; "magic-numbers"]);
+   mk_dir "thailint: ignore[magic-numbers, dry]" (Some ["magic-numbers"; "dry"]);
+   mk_dir "thailint: ignore[magic-numbers.numeric-literal]" (Some ["magic-numbers.numeric-literal"]);
+   mk_dir "thailint: ignore" (Some []);
+   mk_dir "just a note about 42" None].
+
+Definition directive_eqb (a b : directive) : bool :=
+  String.eqb (d_text a) (d_text b)
+  && match d_rules a, d_rules b with
+     | None, None => true
+     | Some x, Some y => (List.length x =? List.length y) && forallb (fun p => String.eqb (fst p) (snd p)) (combine x y)
+     | _, _ => false
+     end.
+Definition dirs_good (ds : dirs) : bool := forallb (fun ld : nat * directive => existsb (directive_eqb (snd ld)) dir_pool) ds.
+
+Definition ignore_pool : list string :=
+  ["tests/**"; "**/*_constants.py"; "*.ts"; "case.py"; "case"; "util/*.py"; "**/helpers.py"; "**/case.py"; "src/*"; "tests/";
+   "generated/**"; "*/case.rs"; "??se.py"; "*.js"; "legacy"].
+
+Definition cfg_good (cfg : mconfig) : bool := forallb (fun p => smem p ignore_pool) (c_ignore cfg).
+
 (* ------------------------------------------------------------------ admissible inputs *)
 Definition name_pool (lg : mlang) : list string :=
   match lg with
@@ -157,10 +204,10 @@ Definition lit_ok (lg : mlang) (l : lit) : bool :=
 
 Definition ctx_ok (lg : mlang) (k : skind) (c : ctx) : bool :=
   match lg, c with
-  | MPy, (CTsEnum | CRsStatic | CMacro) => false
-  | MTs, (CRange | CEnumerate | CStrRepeatL | CStrRepeatR | CDictKeys | CRsStatic | CDecorator | CKwarg | CMacro) => false
+  | MPy, (CTsEnum | CRsStatic | CMacro | CTsField | CRsEnum) => false
+  | MTs, (CRange | CEnumerate | CStrRepeatL | CStrRepeatR | CDictKeys | CRsStatic | CDecorator | CKwarg | CMacro | CRsEnum) => false
   | MRs, (CDefault | CUpperAnn | CRange | CEnumerate | CStrRepeatL | CStrRepeatR | CDictKeys | CTsEnum
-          | CInterp | CDecorator | CKwarg) => false
+          | CInterp | CDecorator | CKwarg | CTsField) => false
   | _, _ => true
   end
   && match c with
@@ -169,13 +216,15 @@ Definition ctx_ok (lg : mlang) (k : skind) (c : ctx) : bool :=
      | _ => true
      end
   && match lg, k with
-     | MRs, (STop | SClass) => match c with CUpper | CUpperNeg | CUpperTuple | CRsStatic => true | _ => false end
-     | MTs, SClass => false
+     | MRs, STop => match c with CUpper | CUpperNeg | CUpperTuple | CRsStatic | CRsEnum => true | _ => false end
+     | MRs, SClass => match c with CUpper | CUpperNeg | CUpperTuple | CRsStatic => true | _ => false end
+     | MTs, SClass => match c with CTsField => true | _ => false end
+     | MTs, _ => match c with CTsField => false | _ => true end
      | _, _ => true
      end.
 
 Definition single_lit_ctx (c : ctx) : bool :=
-  match c with CArg | CElts | CUpperTuple | CTsEnum | CDictKeys | CRange | CDecorator | CNested | CMacro => false | _ => true end.
+  match c with CArg | CElts | CUpperTuple | CTsEnum | CDictKeys | CRange | CDecorator | CNested | CMacro | CRsEnum => false | _ => true end.
 
 (* a constant-definition context binds an UPPER_CASE name, every other context a name that is not UPPER_CASE (so `N = 5`,
    `Max_val = 5`, `_ = 5`, `_1 = 5` are ordinary assignments); Rust const / static items are exempt whatever their name *)
@@ -183,7 +232,7 @@ Definition name_ok (lg : mlang) (c : ctx) (name : string) : bool :=
   match lg with
   | MRs => true
   | _ => if ctx_is_const_def c then match c with CTsEnum => true | _ => spec_upper_name name end
-         else negb (spec_upper_name name) && negb (String.eqb name "range") && negb (String.eqb name "enumerate")
+         else match c with CTsField => true | _ => false end || negb (spec_upper_name name) && negb (String.eqb name "range") && negb (String.eqb name "enumerate")
   end.
 
 Definition site_good (lg : mlang) (k : skind) (s : site) : bool :=
